@@ -37,7 +37,7 @@ def plan(tier, seed):
                     cases.append({"mode": "dfs", "cfg": cfg, "prefix": [0, c0, c1, c2], "depth": d + 1, "tier": tier})
     nwalk = 8000 if tier == "quick" else 150000
     for i in range(nwalk):
-        cases.append({"mode": "walk", "seed": seed, "idx": i, "cfg": {"n": 1 + i % 3, "async": i % 4 == 3, "foreign": i % 5 == 0, "hc": i % 3 == 1, "ext": i % 2 == 1, "sp": (i // 2) % 4 if i % 6 == 5 else 0, "veto": (seed * 100000 + i + 1) if i % 5 == 2 else 0, "restart2": i % 4 == 1, "orders_first": (i // 3) % 3}, "len": 10 + i % 5})
+        cases.append({"mode": "walk", "seed": seed, "idx": i, "cfg": {"n": 1 + i % 3, "async": i % 4 == 3, "foreign": i % 5 == 0, "hc": i % 3 == 1, "ext": i % 2 == 1, "sp": (i // 2) % 4 if i % 6 == 5 else 0, "veto": (seed * 100000 + i + 1) if i % 5 == 2 else 0, "restart2": i % 4 == 1, "orders_first": (i // 3) % 3, "lose_reply": i % 8 == 6}, "len": 10 + i % 5})
     for i in range(3):
         cases.append({"mode": "subscription", "idx": i})
     # directed case for the listed finding C11-restart-replaced-bet
@@ -80,6 +80,10 @@ class Run:
             # the exchange refuses cancels with an error code after which the bet is still live (market suspended while the call was on its way)
             code = cfg["cancel_fault"]
             self.ex.plan = lambda rec: ({"outcomes": [{"status": "FAILURE", "error": code}] * len(rec["instructions"])} if rec["kind"] == "CANCEL" else None)
+        if cfg.get("lose_reply"):
+            # the answer to the first attempt of a placement is lost on its way back (the exchange has booked the bets); the library
+            # sends the request again
+            self.ex.plan = lambda rec: ({"lose_reply": True} if rec["kind"] == "PLACE" and rec["attempt"] == 1 and not rec.get("memo_hit") else None)
         if cfg.get("veto"):
             # a trading control added by the application refuses some cancel / update / replace requests (seeded); a refused request
             # leaves the order as it was
